@@ -45,6 +45,38 @@ inductive ProgKeys (K : List Nat) : Prog → Prop
   | call (c : Cmd) (k : Reply → Prog) (Kc : List Nat) (hc : cmdKeys c = some Kc)
       (hsub : ∀ x ∈ Kc, x ∈ K) (hk : ∀ r, ProgKeys K (k r)) : ProgKeys K (.call c k)
 
+/-- the scripts of the C03 / C02 correspondence (the harness sends the Lua text, the driver runs
+    the program): id, KEYS, ARGV ↦ program.  A `redis.call` that answers an error aborts the script
+    with that error; what earlier calls did stays done.
+    1. `local v = redis.call('GET', KEYS[1]); redis.call('SET', KEYS[1], ARGV[1]); return v`
+    2. `local v = redis.call('RPOP', KEYS[1]); if v then redis.call('LPUSH', KEYS[2], v) end; return v`
+    3. `redis.call('INCR', KEYS[1]); return redis.call('INCR', KEYS[1])`
+    4. `local o = redis.call('HGET', KEYS[1], ARGV[1]); redis.call('HSET', KEYS[1], ARGV[1], ARGV[2]); return o`
+       (ARGV[1] is a field: the driver passes its key code) -/
+def scriptCatalog (id : Nat) (keys : List Nat) (args : List BS) (fields : List Nat) : Option Prog :=
+  match id, keys, args, fields with
+  | 1, [k], [v], _ =>
+    some (.call (.get k) (fun r => match r with
+      | .err e => .ret (.err e)
+      | r => .call (.set k v .always .none false) (fun _ => .ret r)))
+  | 2, [a, b], _, _ =>
+    some (.call (.rpop a) (fun r => match r with
+      | .bulk x => .call (.lpush b [x]) (fun r2 => match r2 with
+        | .err e => .ret (.err e)
+        | _ => .ret (.bulk x))
+      | r => .ret r))
+  | 3, [k], _, _ =>
+    some (.call (.incr k) (fun r => match r with
+      | .err e => .ret (.err e)
+      | _ => .call (.incr k) (fun r2 => .ret r2)))
+  | 4, [k], [v], [f] =>
+    some (.call (.hget k f) (fun r => match r with
+      | .err e => .ret (.err e)
+      | r => .call (.hset k [(f, v)]) (fun r2 => match r2 with
+        | .err e => .ret (.err e)
+        | _ => .ret r)))
+  | _, _, _, _ => none
+
 end Redis
 
 namespace Shards
